@@ -94,8 +94,12 @@ def gen(seed, index):
         if ops[-1][0] != "build" and r.random() < 0.6:
             ops.append(["build", r.choice(["file", "file", "string"])])
     ops.append(["build", "file"])
-    return {"seed": seed, "mode": r.choice(["Serial", "Serial", "OpenMP"]), "init": state, "ops": ops, "raw": raw,
-            "angle": 0 if raw else r.choice([0, 0, 0, 1, 2])}
+    scn = {"seed": seed, "mode": r.choice(["Serial", "Serial", "OpenMP"]), "init": state, "ops": ops, "raw": raw,
+           "angle": 0 if raw else r.choice([0, 0, 0, 1, 2])}
+    # builds per simulated process: 1 = every build in a fresh process; k > 1 = up to k consecutive builds (and the
+    # header edits between them, made by the process itself) share one process, device and whatever it remembers
+    scn["inproc"] = r.choice([1, 1, 1, 2, 3, 4])
+    return scn
 
 
 def job_spec(kind, sb, raw):
@@ -123,7 +127,7 @@ def execute(scn, sb):
     # angle 1: the kernel pulls b.h in with <...> through okl/include_paths; angle 2: a.h/b.h pull c.h in with <...>
     sb.write_proj("k.okl", FILE_KERNEL.replace('#include "b.h"', '#include <b.h>') if angle == 1 else FILE_KERNEL)
     steps = 0
-    clock_off = 0
+    clock_off = [0]
     violations = []
     logs = []
     builds = []
@@ -131,6 +135,40 @@ def execute(scn, sb):
     edits_between = 0
     probes = {"builds": 0, "builds_after_edit": 0, "equal_contents_states": 0, "reverts": 0, "include_graph_changes": 0,
               "cache_hits": 0}
+    inproc = scn.get("inproc", 1)
+    pending = []
+    acc = {"steps": 0}
+
+    def run_pending():
+        """Run the pending builds in one simulated process; judge them in order.  False = stop the history."""
+        jobs = list(pending)
+        del pending[:]
+        g = ps.run_group(sb, seed, [ps.VProcSpec({"mode": mode, "jobs": [j[0] for j in jobs]})], strategy=("rtb", 0, 1),
+                         clock0=max(0, acc["steps"] * 10 ** 6 + clock_off[0] + 10 ** 15), maxsteps=MAXSTEPS, timeout=300)
+        acc["steps"] += g.gsteps
+        logs.extend(g.log)
+        if len(jobs) == 1 and g.vp[0]["compiles"] == 0:
+            probes["cache_hits"] += 1
+        by = {o.get("job"): o for o in g.outputs[0]}
+        for idx, (spec, op, st, exp, tag) in enumerate(jobs):
+            o = by.get(idx, by.get(-1, {"status": "none"}))
+            builds.append({"op": op, "state": st, "status": o.get("status"), "out": o.get("out"), "expected": exp})
+            if g.inconclusive:
+                # a fault-free sequential build needs a few hundred file-system calls; one that is still
+                # going after MAXSTEPS of them is not making progress (bounded-liveness oracle)
+                violations.append(["nonterminating-build", "%s still running after %d file-system calls (a build needs < 400)" % (tag, MAXSTEPS)])
+                return False
+            if g.vp[0]["sig"] and idx not in by:
+                violations.append(["crash", "%s died with signal %d" % (tag, g.vp[0]["sig"])])
+                return False
+            if o.get("status") != "ok":
+                violations.append(["exception", "%s: %s" % (tag, o.get("what", o.get("status")))])
+                return False
+            if o.get("out") != exp:
+                violations.append(["stale-output", "%s computed %s, the current files give %s" % (tag, o.get("out"), exp)])
+                return False
+        return True
+
     for op in scn["ops"]:
         if op[0] == "set":
             state[op[1]][0] = op[2]
@@ -146,11 +184,14 @@ def execute(scn, sb):
                 state = json.loads(history[-3])
                 probes["reverts"] += 1
         elif op[0] == "clock_jump":
-            clock_off += op[1] * 10 ** 9
+            if pending and not run_pending():      # the clock only jumps between processes
+                break
+            clock_off[0] += op[1] * 10 ** 9
             continue
         if op[0] != "build":
             history.append(json.dumps(state, sort_keys=True))
-            flush()
+            if not pending:
+                flush()          # (with builds pending, the process itself writes the headers: prewrite)
             edits_between += 1
             continue
         if len(set(state[h][0] for h in HEADERS)) < 3:
@@ -158,42 +199,29 @@ def execute(scn, sb):
         spec = job_spec(op[1], sb, scn.get("raw"))
         if angle and not scn.get("raw"):
             spec["props"]["okl"] = {"include_paths": [sb.proj]}
-        g = ps.run_group(sb, seed, [ps.VProcSpec({"mode": mode, "jobs": [spec]})], strategy=("rtb", 0, 1),
-                         clock0=max(0, steps * 10 ** 6 + clock_off + 10 ** 15), maxsteps=MAXSTEPS, timeout=300)
-        steps += g.gsteps
-        logs += g.log
+        if inproc > 1:
+            # the process rewrites the headers itself right before this build
+            spec["prewrite"] = {os.path.join(sb.proj, h): render(state[h][0], state[h][1], angle=(angle == 2)) for h in HEADERS}
         nbuilds += 1
         probes["builds"] += 1
         if edits_between:
             probes["builds_after_edit"] += 1
         edits_between = 0
-        if g.vp[0]["compiles"] == 0:
-            probes["cache_hits"] += 1
-        o = g.outputs[0][0] if g.outputs[0] else {"status": "none"}
-        exp = model(state)
-        builds.append({"op": op, "state": {h: state[h] for h in HEADERS}, "status": o.get("status"), "out": o.get("out"), "expected": exp})
-        tag = "build #%d (%s%s) with a.h=%s b.h=%s c.h=%s" % (nbuilds, op[1], ", okl off" if scn.get("raw") else "",
-                                                             state["a.h"], state["b.h"], state["c.h"])
-        if g.inconclusive:
-            # a fault-free sequential build needs a few hundred file-system calls; one that is still
-            # going after MAXSTEPS of them is not making progress (bounded-liveness oracle)
-            violations.append(["nonterminating-build", "%s still running after %d file-system calls (a build needs < 400)" % (tag, MAXSTEPS)])
-            break
-        if g.vp[0]["sig"]:
-            violations.append(["crash", "%s died with signal %d" % (tag, g.vp[0]["sig"])])
-            break
-        if o.get("status") != "ok":
-            violations.append(["exception", "%s: %s" % (tag, o.get("what", o.get("status")))])
-            break
-        if o.get("out") != exp:
-            violations.append(["stale-output", "%s computed %s, the current files give %s" % (tag, o.get("out"), exp)])
-            break
+        tag = "build #%d (%s%s%s) with a.h=%s b.h=%s c.h=%s" % (nbuilds, op[1], ", okl off" if scn.get("raw") else "",
+                                                               ", build %d of its process" % (len(pending) + 1) if inproc > 1 else "",
+                                                               state["a.h"], state["b.h"], state["c.h"])
+        pending.append((spec, op, {h: list(state[h]) for h in HEADERS}, model(state), tag))
+        if len(pending) >= inproc:
+            if not run_pending():
+                break
+    if pending and not violations:
+        run_pending()
     out = {
         "violations": violations,
         "log_hash": ps.log_hash(logs),
-        "steps": steps, "sim_ns": steps * 10 ** 6,
+        "steps": acc["steps"], "sim_ns": acc["steps"] * 10 ** 6,
         "nontrivial": probes["builds_after_edit"] > 0,
-        "distinct_key": hashlib.sha256(json.dumps([scn["init"], scn["ops"], scn["mode"], scn.get("raw")], sort_keys=True).encode()).hexdigest()[:16],
+        "distinct_key": hashlib.sha256(json.dumps([scn["init"], scn["ops"], scn["mode"], scn.get("raw"), scn.get("inproc", 1)], sort_keys=True).encode()).hexdigest()[:16],
         "probes": probes,
         "states": [hashlib.sha256(json.dumps(sb.tree_state()).encode()).hexdigest()[:12]],
         "summary": builds[-3:],
@@ -213,7 +241,8 @@ def signature(scn, out):
         return "%s|stale-output|okl=off" % PROP
     kinds = sorted(set(op[0] for op in scn["ops"] if op[0] != "build"))
     return "%s|%s|%s|okl=%s|edits=%s%s" % (PROP, v[0], msg, "off" if scn.get("raw") else "on", "+".join(kinds),
-                                           "|angle-include" if scn.get("angle") else "")
+                                           ("|angle-include" if scn.get("angle") else "") +
+                                           ("|several-builds-in-one-process" if scn.get("inproc", 1) > 1 else ""))
 
 
 def minimise(ex, scn, out, cls):
@@ -229,6 +258,8 @@ def minimise(ex, scn, out, cls):
         return fails(dict(scn, ops=sub))[0]
     ops = common.ddmin(ops, fails_ops, max_tests=60)
     cur = dict(scn, ops=ops)
+    if cur.get("inproc", 1) > 1 and fails(dict(cur, inproc=1))[0]:
+        cur["inproc"] = 1
     if cur["mode"] != "Serial":
         if fails(dict(cur, mode="Serial"))[0]:
             cur["mode"] = "Serial"
@@ -250,7 +281,8 @@ def main(tier):
     ex.report.rule = ("one run = a seeded history of 5-25 operations (set header contents from a 6-letter alphabet, copy/swap contents "
                       "between headers, add/remove a nested #include, revert two steps, clock jump, build of a file kernel or of a "
                       "string kernel with an includes property; 12% of histories use a non-OKL kernel) with every build in a fresh "
-                      "simulated process on one shared cache; non-trivial = at least one build follows an edit; distinct = hash of the history")
+                      "simulated process on one shared cache, or (half of the histories) 2-4 consecutive builds and the edits "
+                      "between them in one process; non-trivial = at least one build follows an edit; distinct = hash of the history")
     ex.report.assumptions = [
         "every #define in a header is guarded by #ifndef, so the model is 'first definition wins' along the include order",
         "headers live in the project directory next to the kernel; include paths are not varied",
